@@ -100,6 +100,10 @@ def gen_cases(rng, n):
     # SocketStats::update with every kind of error (ext API), written != len included
     for k in range(20):
         cases.append("SU k5/5,e%d/7,k3/9,e%d/0" % (k, k))
+    # the four public incrementers called directly, mixed with update(); four times 2^62-1 and ten more wrap a byte counter to 6
+    big = 2 ** 62 - 1
+    cases.append("SU ibs5,ips,ibd7,ipd,k3/3,e2/9,ips,ipd,ibs0,ibd0")
+    cases.append("SU " + ",".join(["ibs%d" % big] * 4 + ["ibd%d" % big] * 4 + ["k10/10", "ips", "e1/10"]))   # 4 * (2^62-1) + 10 = 2^64 + 6
     for _ in range(max(10, n // 10)):
         ups = []
         for _ in range(rng.choice([1, 3, 10, 30])):
@@ -108,6 +112,8 @@ def gen_cases(rng, n):
                 ups.append("k%d/%d" % (rng.choice([ln, ln, 0, rng.randrange(ln + 1)]), ln))
             else:
                 ups.append("e%d/%d" % (rng.randrange(20), ln))
+            if rng.random() < 0.25:
+                ups.append(rng.choice(["ibs%d" % ln, "ips", "ibd%d" % ln, "ipd"]))
         cases.append("SU " + ",".join(ups))
     # the Unix sinks given a symbolic link that is re-pointed to another listener half way (op m)
     e1, e2, e3 = "E" + hx(b"one:1|c"), "E" + hx("zw\u00f6lf:12|ms".encode()), "E" + hx(b"three:3|g")
@@ -378,6 +384,10 @@ def judge(case, obs):
         ups = t[1].split(",")
         want = [0, 0, 0, 0]
         for u in ups:
+            if u[0] == "i":
+                k = {"bs": 0, "ps": 1, "bd": 2, "pd": 3}[u[1:3]]
+                want[k] += int(u[3:]) if u[3:] else 1
+                continue
             r, ln = u.split("/")
             if r[0] == "k":
                 want[0] += int(r[1:])
@@ -388,7 +398,7 @@ def judge(case, obs):
         want = [x % (1 << 64) for x in want]
         if [int(x) for x in parts["S"].split(".")] != want:
             bad.append(("C14", "statistics %s after the updates %s, expected %s" % (parts["S"], t[1][:200], want)))
-        if parts["R"].split(",") != [u.split("/")[0] for u in ups]:
+        if parts["R"].split(",") != ["-" if u[0] == "i" else u.split("/")[0] for u in ups]:
             bad.append(("C14", "SocketStats::update did not hand its argument back unchanged: %s for %s" % (parts["R"][:200], t[1][:200])))
         return bad
     if t[0] == "XW":
